@@ -95,6 +95,8 @@ type Exec struct {
 	rawSel    *ESel               // spec evaluator: method call whose struct result is field-selected at once
 	rawDone   bool
 	revealing map[string]bool // opaque spec functions whose definition axiom is being built
+	curCall   *ssa.CallCommon // static write summaries: the call whose contract items are being resolved
+	refArrays map[string][]string // allocated object -> the heap arrays that hold its memory
 }
 
 func NewExec(p *Program, cs *ContractSet, cfg Config) *Exec {
@@ -114,6 +116,7 @@ func (x *Exec) reset() {
 	x.funcById = map[int]*ssa.Function{}
 	x.fieldIds = map[string]int64{}
 	x.allocCount = 0
+	x.refArrays = nil
 	x.heap0 = map[string]*Term{}
 	x.needSeqAxioms = false
 	x.catParts = map[string][2]*Term{}
@@ -661,6 +664,20 @@ func (x *Exec) loopEnv(fr *Frame, st *State, b *ssa.BasicBlock) *SpecEnv {
 			}
 		}
 	}
+	// nested map-range loops: visited<N> is the visited set of loop N of this function
+	if fr.info != nil {
+		for _, li := range fr.info.ordered {
+			for _, ins := range li.header.Instrs {
+				if nx, ok := ins.(*ssa.Next); ok {
+					if it, ok := fr.vals[nx.Iter].(*IterV); ok && !it.Str {
+						if vis, ok := st.ghost[it.Visited].(*Term); ok {
+							env.bind(fmt.Sprintf("visited%d", li.ordinal), TV{V: &SpecVal{Kind: "other", T: vis}})
+						}
+					}
+				}
+			}
+		}
+	}
 	return env
 }
 
@@ -708,6 +725,7 @@ func (x *Exec) havocLoopHeap(fr *Frame, st *State, li *loopInfo) {
 	nonLocal := false
 	names := map[string]bool{}
 	writesOld := map[string]bool{} // arrays that may be written at objects that existed at entry
+	summarised := map[string]bool{} // arrays written by calls known only through a write summary
 	for b := range li.blocks {
 		for _, ins := range b.Instrs {
 			switch i := ins.(type) {
@@ -792,6 +810,17 @@ func (x *Exec) havocLoopHeap(fr *Frame, st *State, li *loopInfo) {
 					}
 				}
 				if x.callMayWriteHeap(i.Common()) {
+					// an uncontracted function of this module (inlined when executed) writes what its
+					// body writes; reach(p) frames are resolved by the static type of the argument
+					if ns, ok := x.callWriteNames(i.Common()); ok {
+						for _, n := range ns {
+							names[n] = true
+							writesOld[n] = true
+							summarised[n] = true
+						}
+						nonLocal = true
+						continue
+					}
 					all = true
 				}
 			case *ssa.Next:
@@ -800,10 +829,13 @@ func (x *Exec) havocLoopHeap(fr *Frame, st *State, li *loopInfo) {
 		}
 	}
 	if all {
-		x.heapHavocAll(st)
+		x.heapHavocAllKeeping(st, x.loopInvariantLocals(fr, st, li))
 	} else {
 		// writes whose target is the same in every iteration leave the rest of their array alone
 		lt := x.collectLoopTargets(fr, st, li, names)
+		for n := range summarised {
+			lt.untargeted[n] = true
+		}
 		// arrays known from the entry state (touched by the precondition) but not yet on this path:
 		// bring them in, so that their havoc is related to the entry heap by the frame fact
 		for n0, t0 := range x.heap0 {
